@@ -157,6 +157,8 @@ func c20sScenarios() []c20sScenario {
 		{Name: "services-vs-l2-interface-change-vs-node-unavailable", Pre: []c20sCall{cfg(0), node(0), svc(0, 0, 0)}, Svc: []c20sCall{svc(1, 2, 0), svc(0, 3, 0)}, Cfg: []c20sCall{cfg(2)}, Node: []c20sCall{node(1)}, Fetches: 2},
 		{Name: "services-vs-bgp-config-vs-node-labels", Pre: []c20sCall{cfg(5), node(0), svc(0, 0, 0)}, Svc: []c20sCall{svc(1, 2, 0), svc(0, -1, 0)}, Cfg: []c20sCall{cfg(4)}, Node: []c20sCall{node(3)}, Fetches: 2},
 		{Name: "re-announce-vs-status-fetch", Pre: []c20sCall{cfg(2), node(0), svc(0, 0, 0)}, Svc: []c20sCall{svc(0, 0, 0), svc(0, 3, 0)}, Cfg: []c20sCall{cfg(0)}, Node: nil, Fetches: 3},
+		// no call before the workers start: first events of a fresh process (lazily initialised state in the listener / controllers)
+		{Name: "first-events-of-a-fresh-process", Pre: nil, Svc: []c20sCall{svc(0, 0, 0), svc(1, 2, 0)}, Cfg: []c20sCall{cfg(5), cfg(0)}, Node: []c20sCall{node(0), node(1)}, Fetches: 2},
 		{Name: "node-flap-vs-services", Pre: []c20sCall{cfg(5), node(0), svc(0, 0, 0), svc(1, 2, 0)}, Svc: []c20sCall{svc(0, 4, 0)}, Cfg: nil, Node: []c20sCall{node(3), node(0)}, Fetches: 2},
 	}
 }
